@@ -154,7 +154,8 @@ func oracleList(inp []byte, allowNC1 bool) ([][]byte, bool) {
 	return nil, false
 }
 
-// ---- classification of the known crash classes (exact integer arithmetic) ----
+// ---- classification of the crash classes of the code before commit 8b09734 (exact integer arithmetic);
+// used only to name a crash precisely should one reappear ----
 
 // hugeAt: position i carries a long-form prefix 0xbf/0xff with a complete 8-byte length field, no leading
 // zero, value L <= MaxInt64, and i+9+L > MaxInt64 (so that start+length overflows a Go int).
